@@ -30,7 +30,8 @@ META = {
              '_shards: thousands of one-voxel chunks over more than 1024 s'
              'hard files.'
              " Round 12: windows exactly as wide as the output range that start elsewhere (pure shifts), in-memory image objects, and the exhaustive sub-check option_grid (layout x stored type x output type x window class x header scaling / ignore x entry point, ~5000 tiny cases)."
-             " Round 21: a file loaded by the caller with nibabel, whose values the caller has read (get_fdata) before handing the image object over."),
+             " Round 21: a file loaded by the caller with nibabel, whose values the caller has read (get_fdata) before handing the image object over."
+             " Round 23: float volumes whose values lie one unit in the last place beside k + 0.5 (content near_tie; 64 cases of it in option_grid)."),
     "trusted_base": ["nibabel writes the input (stored array and header "
                      "scaling re-read and verified as a precondition)",
                      "vlib/refs/dtype_ref.py, Fraction arithmetic"],
@@ -133,7 +134,8 @@ def cases(draw):
         "acc": acc, "bits": [draw(st.integers(0, 3)) for _ in range(3)],
         "shard_enc": draw(st.sampled_from(["raw", "gzip"])),
         "shard_enc_data": draw(st.sampled_from(["raw", "gzip"])),
-        "content": draw(st.sampled_from(["position", "position", "limits"])),
+        "content": draw(st.sampled_from(["position", "position", "limits",
+                                         "near_tie"])),
         "seed": draw(st.integers(0, 2 ** 31)),
         "big_endian": draw(st.integers(0, 3)) == 0,
         "via": draw(st.sampled_from(["api", "cli", "api", "cli", "image",
@@ -170,6 +172,12 @@ def make_raw(case):
         if case["content"] == "limits":
             code = code * 0.37 - 11.5
         code = code.astype(dt)
+        if case["content"] == "near_tie":
+            # one unit in the last place (of the stored type) beside k + 0.5
+            code = (code % 60000 + dt.type(0.5)).astype(dt)
+            up = (np.arange(code.size).reshape(code.shape) % 2).astype(bool)
+            code = np.where(up, np.nextafter(code, dt.type(np.inf)),
+                            np.nextafter(code, dt.type(-np.inf))).astype(dt)
     else:
         ii = np.iinfo(dt)
         lo, hi = int(ii.min), int(ii.max)
@@ -538,6 +546,23 @@ def grid_cases():
                                 "shard_enc_data": "gzip",
                                 "content": "position", "seed": k,
                                 "big_endian": k % 7 == 0, "via": via})
+    # float volumes whose values lie one unit in the last place beside a
+    # tie, converted to every integer type through every entry point
+    for out in ("uint8", "uint16", "uint32", "uint64"):
+        for stored in ("float32", "float64"):
+            for via in ("api", "cli", "image", "loaded"):
+                for mmap in (False, True):
+                    k += 1
+                    cases_.append({
+                        "shape": [3, 2, 2], "layout": "3d", "channels": 1,
+                        "stored": stored, "gz": False, "scaling": None,
+                        "ignore_scaling": False, "minmax": None,
+                        "mmap": mmap, "out": out, "chunk": [2, 2, 2],
+                        "encoding": "raw", "block": [8, 8, 8],
+                        "acc": "deep_gz", "bits": [1, 1, 1],
+                        "shard_enc": "raw", "shard_enc_data": "gzip",
+                        "content": "near_tie", "seed": k,
+                        "big_endian": False, "via": via})
     return cases_
 
 
